@@ -142,6 +142,7 @@ def cache_prim_setup(b):
     cd = me.get('_cache_directory')
     b.assume(z3.Not(cd.ty.is_none(cd.z)))
     P = models.opaque_type('CachePath')
+    P.lenient = True          # methods the sidecar has no model for (is_dir, exists, with_name ...): unknown results
 
     def path_ctor(interp, st, args, kwargs):
         st.emit('Path', args=list(args))
